@@ -96,6 +96,18 @@ func storeSnapshot(s *plainStore) []SnapEntry {
 	return out
 }
 
+// directed histories that run before the random ones (every store call of each is failed in turn like the others):
+// a directory read in pages through one handle, with pages of two and more entries, so that a failed look-up of the
+// second or a later child of a page is among the faults whatever the seed
+var c14Directed = [][]Op{
+	{{Kind: "mkdir", P: "a", Perm: 0o755}, {Kind: "writefile", P: "a/a", Data: []byte{1}, Perm: 0o644}, {Kind: "writefile", P: "a/b", Data: []byte{2, 3}, Perm: 0o600},
+		{Kind: "writefile", P: "a/ab", Data: []byte{4}, Perm: 0o644}, {Kind: "open", P: "a", Flag: 0}, {Kind: "h:readdir", H: 0, N: 2}, {Kind: "h:readdir", H: 0, N: 2}, {Kind: "h:readdir", H: 0, N: 1}},
+	{{Kind: "mkdir", P: "a", Perm: 0o755}, {Kind: "writefile", P: "a/a", Data: []byte{1}, Perm: 0o644}, {Kind: "mkdir", P: "a/b", Perm: 0o700},
+		{Kind: "writefile", P: "a/ab", Data: []byte{4}, Perm: 0o644}, {Kind: "open", P: "a", Flag: 0}, {Kind: "h:readdir", H: 0, N: 3}, {Kind: "h:readdir", H: 0, N: -1}},
+	{{Kind: "mkdirall", P: "a/b", Perm: 0o755}, {Kind: "writefile", P: "a/ab", Data: []byte{4}, Perm: 0o644}, {Kind: "open", P: "a", Flag: 0},
+		{Kind: "h:readdir", H: 0, N: 1}, {Kind: "h:readdir", H: 0, N: 1}, {Kind: "h:readdir", H: 0, N: 1}, {Kind: "readdir", P: "a"}},
+}
+
 func genFaultHistory(r *Rng) []Op {
 	var ops []Op
 	if r.Intn(3) == 0 {
@@ -124,7 +136,12 @@ func mutating(o Op) bool {
 func runC14(r *Rng, n int, replay string) {
 	id := 0
 	for hidx := 0; id < n; hidx++ {
-		ops := genFaultHistory(r)
+		var ops []Op
+		if hidx < 2*len(c14Directed) {
+			ops = append(ops, c14Directed[hidx/2]...) // each on the plain store and on the transaction store
+		} else {
+			ops = genFaultHistory(r)
+		}
 		useTxn := hidx%2 == 1
 		mk := func() (hackpadfs.FS, *plainStore) {
 			ps := newPlainStore()
